@@ -137,6 +137,7 @@ pub fn install_failpoints(level: u64) {
 // ---------------------------------------------------------------------------------------------
 // blocking calls at the client boundary
 // ---------------------------------------------------------------------------------------------
+pub const TINY: u64 = 1 << 62;
 #[derive(Clone, Copy, Debug, PartialEq)]
 pub enum BKind {
     Tell,
@@ -164,7 +165,8 @@ fn rres<T>(r: rsactor::Result<T>, f: impl FnOnce(T) -> Rep) -> Res {
 
 /// Blocking tell/ask of an `MU` message through `r`; returns (result, elapsed).
 pub fn send_blocking(sh: &Shared, ctx: Ctx, actor: usize, r: &ActorRef<SA>, kind: BKind, body: Body) -> (Res, Duration) {
-    let d = |ms: u64| Some(if ms == u64::MAX { Duration::MAX } else { Duration::from_millis(ms) });
+    // values at or above TINY (other than u64::MAX = Duration::MAX) encode a duration in nanoseconds below the timer's resolution
+    let d = |ms: u64| Some(if ms == u64::MAX { Duration::MAX } else if ms >= TINY { Duration::from_nanos(ms - TINY) } else { Duration::from_millis(ms) });
     let (ok, to) = match kind {
         BKind::Tell => (OpKind::BTell, 0),
         BKind::Ask => (OpKind::BAsk, 0),
@@ -177,6 +179,7 @@ pub fn send_blocking(sh: &Shared, ctx: Ctx, actor: usize, r: &ActorRef<SA>, kind
         BKind::ErasedAsk(Some(ms)) => (OpKind::BAskTo, ms),
         BKind::ErasedAsk(None) => (OpKind::BAsk, 0),
     };
+    let to = if to != u64::MAX && to >= TINY { 0 } else { to };
     let g = CallGuard::start(sh, actor, ok, 'U', body.uid, to, ctx);
     let t = Instant::now();
     let res = match kind {
@@ -848,7 +851,69 @@ fn round_blocking(rt: &tokio::runtime::Runtime, seed: u64, hb: &Heartbeat, tot: 
             Err(e) => v.push(("C17.inside_runtime".into(), format!("{name}(Some(t)) called from inside a runtime worker panicked: {e}"))),
         }
     }
-    std::thread::sleep(Duration::from_millis(2));
+    // 4e. degenerate timeouts (zero, below the timer's 1 ms resolution), direct and type-erased, from a plain thread and from a
+    // thread that has entered the runtime: the mailbox is full, so each must return Timeout promptly - a timeout that is too small
+    // to matter is still a deadline
+    {
+        let mut waits = vec![];
+        for (ti, dur) in [Duration::ZERO, Duration::from_micros(200), Duration::from_micros(999), Duration::from_nanos(1)].into_iter().enumerate() {
+            for which in 0..4usize {
+                let entered = (ti + which) % 2 == 1;
+                let (a2, sh2) = (a.clone(), sh.clone());
+                let h = rt.handle().clone();
+                let (tx, rx) = std::sync::mpsc::channel();
+                let enc = TINY + dur.as_nanos() as u64;
+                std::thread::spawn(move || {
+                    let _g = if entered { Some(h.enter()) } else { None };
+                    let kind = match which {
+                        0 => BKind::TellTo(enc),
+                        1 => BKind::AskTo(enc),
+                        2 => BKind::ErasedTell(Some(enc)),
+                        _ => BKind::ErasedAsk(Some(enc)),
+                    };
+                    let _ = tx.send(send_blocking(&sh2, Ctx::Client(20 + which), 0, &a2, kind, Body::plain(uid())));
+                });
+                waits.push((dur, which, entered, rx));
+            }
+        }
+        for (dur, which, entered, rx) in waits {
+            let name = ["blocking_tell", "blocking_ask", "erased blocking_tell", "erased blocking_ask"][which];
+            let clause = if which < 2 { "C17.deadline" } else { "C16.blocking" };
+            let place = if entered { "a thread that has entered the runtime" } else { "a plain thread" };
+            *o.entry(clause).or_default() += 1;
+            *o.entry("C10.tiny_timeouts").or_default() += 1;
+            match rx.recv_timeout(Duration::from_secs(5)) {
+                Ok((Res::Timeout, _)) => {}
+                Ok((res, el)) => v.push((clause.into(), format!("[tiny-timeout] {name}(Some({dur:?})) from {place} against a full mailbox behind a gated handler returned {res:?} after {el:?} (expected Timeout)"))),
+                Err(_) => {
+                    if hb.max_late_since(bucket0) < STALL_US {
+                        v.push((clause.into(), format!("[tiny-timeout] {name}(Some({dur:?})) from {place} against a full mailbox behind a gated handler had not returned 5 s later: a timeout of {dur:?} was treated as no timeout")));
+                    }
+                }
+            }
+        }
+    }
+    // 4f. untimed blocking_tell from threads that carry a runtime handle (spawn_blocking worker, entered thread): the mailbox is
+    // full, so the call must still be waiting when the gate opens - back-pressure, not a detached send
+    let untimed_sb = {
+        let (a2, sh2) = (a.clone(), sh.clone());
+        rt.spawn_blocking(move || send_blocking(&sh2, Ctx::Client(18), 0, &a2, BKind::Tell, Body::plain(uid())))
+    };
+    let untimed_entered = {
+        let (a2, sh2) = (a.clone(), sh.clone());
+        let h = rt.handle().clone();
+        std::thread::spawn(move || {
+            let _g = h.enter();
+            send_blocking(&sh2, Ctx::Client(19), 0, &a2, BKind::ErasedTell(None), Body::plain(uid()))
+        })
+    };
+    std::thread::sleep(Duration::from_millis(30));
+    *o.entry("C09.waits").or_default() += 2;
+    for (place, early) in [("a spawn_blocking worker", untimed_sb.is_finished()), ("a thread that has entered the runtime", untimed_entered.is_finished())] {
+        if early {
+            v.push(("C09.waits".into(), format!("[blocking] blocking_tell(None) from {place} returned while the mailbox (capacity {cap}) was full behind a gated handler: a send into a full mailbox did not wait")));
+        }
+    }
     let dep_done_early = dep_tell.is_finished();
     *o.entry("C17.deprecated_ignores_timeout").or_default() += 1;
     if dep_done_early {
@@ -859,6 +924,15 @@ fn round_blocking(rt: &tokio::runtime::Runtime, seed: u64, hb: &Heartbeat, tot: 
     let (dres, _) = dep_tell.join().unwrap();
     if !dres.is_ok() {
         v.push(("C17.deprecated_ignores_timeout".into(), format!("tell_blocking(Some(1 ms)) returned {dres:?} instead of waiting for a free slot")));
+    }
+    match rt.block_on(async { tokio::time::timeout(Duration::from_secs(10), untimed_sb).await }) {
+        Ok(Ok((res, _))) if !res.is_ok() => v.push(("C09.waits".into(), format!("[blocking] blocking_tell(None) from a spawn_blocking worker returned {res:?} after the gate had opened instead of Ok"))),
+        _ => {}
+    }
+    if let Ok((res, _)) = untimed_entered.join() {
+        if !res.is_ok() {
+            v.push(("C09.waits".into(), format!("[blocking] erased blocking_tell(None) from a thread that has entered the runtime returned {res:?} after the gate had opened instead of Ok")));
+        }
     }
     // 5b. every timeout value: a huge timeout on a responsive actor is just a successful call
     for kind in [BKind::TellTo(u64::MAX), BKind::AskTo(u64::MAX), BKind::ErasedAsk(Some(u64::MAX))] {
